@@ -51,7 +51,8 @@ def malformed_texts(rng, n):
 VOCAB = [b"2a3", b"1d0", b"1c1", b"1,2c3,4", b"0a1", b"< x", b"> y", b"---", b"\\ No newline at end of file", b"--- f", b"+++ f", b"*** f",
          b"@@ -1 +1 @@", b"@@ -1,2 +1,0 @@", b"@@ -0,0 +1 @@", b" c", b"+p", b"-m", b"***************", b"*** 1 ****", b"*** 1,2 ****",
          b"--- 1 ----", b"--- 1,2 ----", b"! b", b"diff --git a/f b/f", b"",
-         b"Index: f (revision 2)", b"Prereq: v1 v2"]
+         b"Index: f (revision 2)", b"Prereq: v1 v2",
+         b"+ p", b"- m", b"  c"]
 
 
 def small_scope_streams(rng, maxlen, sample=None):
@@ -183,7 +184,22 @@ def run_c07(run_, rng, tier):
         o["i"] = "p.diff"; o["file"] = "f"
         scns.append(dict(tree={"f": ("R", 0o644, rng.choice([b"x\n", b"a\nc\n", b"", b"l0\nl1\nl2\n"])), "p.diff": ("R", 0o644, t)}, opts=o, umask=0o022, env=SAN_ENV))
     _, b2, m2 = l2_family(run_, exe, scns, judge_c07, cls=lambda s, r: "L2 exit %d" % r["exit"], timeout=30)
-    return bad + b2, mism + m2
+    # an environment in which nothing can be written (file size limit 0, as on a full disk), and absolute names
+    env_scns = []
+    good = b"--- f\n+++ f\n@@ -1,2 +1,2 @@\n a\n-b\n+B\n"
+    for o in ({}, {"dry": 1}, {"b": 1}, {"dry": 1, "f": 1}, {"o": "out"}, {"r": "rej", "f": 1}, {"N": 1}, {"dry": 1, "v": 1}):
+        for t in (good, b"--- f\n+++ f\n@@ -1 +1 @@\n-nomatch\n+x\n", b"diff --git a/f b/f\n" + good):
+            o2 = dict(o); o2.update(i="p.diff", file="f")
+            env_scns.append(dict(tree={"f": ("R", 0o644, b"a\nb\n"), "p.diff": ("R", 0o644, t)}, opts=o2, umask=0o022, env=SAN_ENV, fsize0=True))
+    for t, o in [(b"--- f\n+++ f\n@@ -1 +1 @@\n-nomatch\n+x\n", {"file": "@CWD@/f", "f": 1}),
+                 (b"--- /dev/null\n+++ @CWD@/new/dir/file\n@@ -0,0 +1 @@\n+x\n", {"p": 0}),
+                 (b"--- f\n+++ f\n@@ -1 +1 @@\n-a\n+A\n", {"o": "@CWD@/out/put", "file": "f"}),
+                 (b"--- f\n+++ f\n@@ -1 +1 @@\n-nomatch\n+A\n", {"r": "@CWD@/rej/ects", "file": "f", "f": 1}),
+                 (b"--- f\n+++ f\n@@ -1 +1 @@\n-a\n+A\n", {"b": 1, "B": "@CWD@/bak/", "file": "f"})]:
+        o = dict(o); o["i"] = "p.diff"; o.setdefault("p", 1)
+        env_scns.append(dict(tree={"f": ("R", 0o644, b"a\nb\nc\n"), "p.diff": ("R", 0o644, t)}, opts=o, umask=0o022, abs_paths=True, env=SAN_ENV))
+    _, b3, _ = l2_family(run_, exe, env_scns, judge_c07, cls=lambda s, r: "L2 %s exit %d" % ("nothing writable" if s.get("fsize0") else "absolute names", r["exit"]), timeout=30, compare=False)
+    return bad + b2 + b3, mism + m2
 
 
 # ---------------------------------------------------------------- C08
@@ -201,6 +217,12 @@ def slow_texts(rng, n):
         b"Index: f\n" * 200,
         b"--- f\n+++ f\n@@ -1,%s +1,%s @@\n a\n" % (big.encode(), big.encode()),
         b"@@ -1 +1 @@\n" * 300,
+        # context hunks whose lines carry a marker that does not belong on that side
+        b"*** f\n--- f\n***************\n*** 1,2 ****\n+ a\n  b\n--- 1,2 ----\n  b\n+ c\n",
+        b"*** f\n--- f\n***************\n*** 1,2 ****\n- a\n  b\n--- 1,2 ----\n  b\n- c\n",
+        b"*** f\n--- f\n***************\n*** 1,2 ****\n! a\n+ b\n--- 1,2 ----\n! b\n- c\n",
+        b"*** f\n--- f\n***************\n*** 1 ****\n+ a\n--- 1 ----\n- a\n",
+        b"*** f\n--- f\n***************\n*** 1,3 ****\n  a\n+ x\n  c\n--- 1,3 ----\n  a\n- y\n  c\n",
     ]
     out += fixed
     out += [t for t in malformed_texts(rng, n)]
